@@ -753,6 +753,18 @@ package xmpp
 //@   assigns c.Session, c.Session.err, c.Session.Features, c.Session.TlsEnabled, c.Session.StreamId, c.Session.SMState, c.Session.BindJid, c.Session.lastPacketId, c.config.StreamManagementEnable, c.CurrentState.state
 //@   emits Write, Decoded, DecodedElement, StartTLSCalled, SecureAsked, PacketRead, StanzaRead, AckReqRead, StreamErrRead, TokenRead, Marshaled, StreamStarted, TlsDone, AuthConfirmed, Restarted, ResumedOK, Bound, SessionOpened, SMEnabledOK, Connected, EventHandler, Spawn, Spawn_connect$1
 //
+// The goroutine connect() starts after a failed negotiation only waits for the server's closing tag. There is no
+// established connection to lose at that point: it must not signal one (under a StreamManager every Disconnected or
+// StreamError event starts a reconnect loop - a second one, next to the loop whose attempt has just failed).
+//@ func (*xmpp.Client).connect$1(c)
+//@   requires c != nil && c.transport != nil && c.ErrorHandler != nil
+//@   ensures [C13.connect.probe.quiet] count(EventHandler) == old(count(EventHandler))
+//@   ensures [C13.connect.probe.state] c.CurrentState.state == old(c.CurrentState.state)
+//@   emits PacketRead, StanzaRead, AckReqRead, StreamErrRead, TokenRead, DecodedElement, DecodeFailed, ErrorHandler, EventHandler
+//@   assigns c.CurrentState.state
+//@   loop 1:
+//@     invariant c != nil && c.transport != nil && c.ErrorHandler != nil && count(EventHandler) == old(count(EventHandler)) && c.CurrentState.state == old(c.CurrentState.state)
+//
 //@ func (*xmpp.Client).Connect(c) (err)
 //@   requires connectOK(c)
 //@   ensures [C03.Connect.fail,C04.Connect.fail] c.CurrentState.state != StateSessionEstablished && old(c.CurrentState.state) != StateSessionEstablished ==> err != nil && count(Spawn_recv) == old(count(Spawn_recv)) && count(Spawn_keepalive) == old(count(Spawn_keepalive))
